@@ -9,6 +9,7 @@ import sys
 import time
 
 VERIF = os.path.dirname(os.path.dirname(os.path.abspath(__file__)))
+EVIDENCE_DIR = os.environ.get('KV_EVIDENCE') or os.path.join(VERIF, 'evidence')
 REPO = os.environ.get('KV_REPO', '/repo')
 CACHE = os.path.join(VERIF, '.cache')
 DRIVER_DIR = os.path.join(VERIF, 'engine', 'kira-mir')
@@ -86,13 +87,15 @@ def build_facts(config='default', repo=None, target_dir=None, quiet=True):
             return facts
         # drop stale facts of this config
         for f in os.listdir(CACHE):
+            if os.environ.get('KV_KEEP_FACTS'):
+                break
             if f.startswith('facts-%s-' % config) and f.endswith('.json'):
                 # keep facts of scratch repos out of the way: only one per config
                 try:
                     os.remove(os.path.join(CACHE, f))
                 except OSError:
                     pass
-        tdir = target_dir or os.path.join(CACHE, 'target-%s' % ('ovf' if ovf else 'rel'))
+        tdir = target_dir or os.environ.get('KV_TARGET') or os.path.join(CACHE, 'target-%s' % ('ovf' if ovf else 'rel'))
         # cargo's freshness cache would skip the wrapper: forget kira's fingerprints
         fp = os.path.join(tdir, 'debug', '.fingerprint')
         if os.path.isdir(fp):
@@ -197,10 +200,10 @@ def finish(res, tier, t0, level_text, technique, seed=0, configs=None):
     new = []
     nknown = 0
     seen_keys = set()
-    os.makedirs(os.path.join(VERIF, 'evidence', 'violations'), exist_ok=True)
-    for f in os.listdir(os.path.join(VERIF, 'evidence', 'violations')):
+    os.makedirs(os.path.join(EVIDENCE_DIR, 'violations'), exist_ok=True)
+    for f in os.listdir(os.path.join(EVIDENCE_DIR, 'violations')):
         if f.startswith(prop + '-'):
-            os.remove(os.path.join(VERIF, 'evidence', 'violations', f))
+            os.remove(os.path.join(EVIDENCE_DIR, 'violations', f))
     for v in viols:
         if v['key'] in seen_keys:
             continue
@@ -212,7 +215,7 @@ def finish(res, tier, t0, level_text, technique, seed=0, configs=None):
         else:
             new.append(v)
     for n, v in enumerate(new):
-        path = os.path.join(VERIF, 'evidence', 'violations', '%s-%d.json' % (prop, n))
+        path = os.path.join(EVIDENCE_DIR, 'violations', '%s-%d.json' % (prop, n))
         with open(path, 'w') as f:
             json.dump(v, f, indent=1, default=list)
         print('VIOLATION property=%s replay=%s' % (prop, path))
@@ -259,8 +262,8 @@ def finish(res, tier, t0, level_text, technique, seed=0, configs=None):
         'violations': len(new),
     }
     ev['coverage'].update(res.extra)
-    os.makedirs(os.path.join(VERIF, 'evidence'), exist_ok=True)
-    with open(os.path.join(VERIF, 'evidence', '%s.json' % prop), 'w') as f:
+    os.makedirs(EVIDENCE_DIR, exist_ok=True)
+    with open(os.path.join(EVIDENCE_DIR, '%s.json' % prop), 'w') as f:
         json.dump(ev, f, indent=1, default=list)
     print('%s: %d rule instances (%d rules), %d ok, %d known finding(s), %d new violation(s) [%s, %.1fs]'
           % (prop, len(res.items), len(rules), len(oks), nknown, len(new), tier, time.time() - t0))
